@@ -39,6 +39,9 @@ def confirm(pid):
         demo = 'tests/seeded_demo_%s.rs' % X
         shutil.copy(sd + '/demo.rs', os.path.join(d, demo))
         cmd = meta.get('demo_cmd') or ('cargo test --offline --features save_kdbx4,_merge,totp --test seeded_demo_%s' % X)
+        cmd = cmd.split('  (')[0].split(' (')[0].strip()
+        if '&&' in cmd:
+            cmd = cmd.split('&&')[-1].strip()
         if '--offline' not in cmd:
             cmd += ' --offline'
         r['demo_cmd'] = cmd
